@@ -269,6 +269,9 @@ def save_case(name, container, k, fail_at, mode, flavour):
 
 
 # ------------------------------------------------------------------------------------ a sequence of saves
+_READBACK = {}      # (corpus model, md5 of the bytes of a saved copy) -> what probe() read it back as
+
+
 def seq_case(name, container, k, steps):
     """k clean saves (generations 1..k), then one save per step of the same open model, edited into the next
     generation before each save: step = None (clean save) or (fault point, mode, error) with the fault point named
@@ -297,30 +300,28 @@ def seq_case(name, container, k, steps):
         m = build(name, g)
         keep = (m,)
         prev = {k - i: i for i in range(min(k, 4))}         # complete generation -> slot, before the step
-        seen = {}       # (inode, size, mtime_ns) of a regular file (renames keep all three) / content hash of a directory
-                        # -> what it read back as: a copy that was only renamed since is not read again
 
         def probe1(path):
-            try:
-                st = os.lstat(path)
-            except OSError:
-                return ("absent",)
+            """probe(), remembering per process what a copy with exactly these bytes read back as (a copy that was only
+            renamed, or copied from the template, is not read again)."""
             if os.path.islink(path) or not (os.path.isfile(path) or os.path.isdir(path)):
                 return probe(path, name, keep)
+            h = hashlib.md5()
             if os.path.isdir(path):
-                h = hashlib.md5()       # a directory: named by its whole content (sub-directories, file names, bytes)
                 for d, dirs, files in os.walk(path):
                     dirs.sort()
                     h.update(("D" + os.path.relpath(d, path) + "\0").encode())
                     for f in sorted(files):
                         with open(os.path.join(d, f), "rb") as fh:
                             h.update(("F" + f + "\0").encode() + fh.read() + b"\0")
-                key = ("dir", h.hexdigest())
             else:
-                key = (st.st_ino, st.st_size, st.st_mtime_ns)
-            if key not in seen:
-                seen[key] = probe(path, name, keep)
-            return seen[key]
+                with open(path, "rb") as fh:
+                    h.update(b"file\0" + fh.read())
+            key = (name, h.hexdigest())
+            if key not in _READBACK:
+                _READBACK[key] = probe(path, name, keep)
+            return _READBACK[key]
+
         for n, step in enumerate(steps, 1):
             if n > 1:
                 g += 1
@@ -720,7 +721,15 @@ def run(res, tier, seed):
             for ci, i in enumerate(range(0, len(sqs), 4)):
                 seq_tasks.append((ci, si, sc + (sqs[i:i + 4],)))
         seq_tasks.sort(key=lambda t: t[:2])
-        tasks += [t[2] for t in seq_tasks]
+        # spread the sequence tasks evenly among the single-fault tasks (a budget stop cuts both kinds alike)
+        merged, a, b = [], tasks, [t[2] for t in seq_tasks]
+        ia = ib = 0
+        while ia < len(a) or ib < len(b):
+            if ib >= len(b) or (ia < len(a) and ia * len(b) <= ib * len(a)):
+                merged.append(a[ia]); ia += 1
+            else:
+                merged.append(b[ib]); ib += 1
+        tasks = merged
         total = sum(len(t[4]) for t in tasks)
         done = 0
         for sc, out in pool.imap(worker, tasks):
